@@ -7,3 +7,6 @@ Import ListNotations.
 Definition lsp_run (ms : list (msg N)) : list (out unit bool) :=
   snd (run N unit bool (fun _ _ => tt) tt
            (fun o => match o with Some t => N.odd t | None => false end) false [] ms).
+Definition lsp_session (fs : list (frame N)) : ended unit bool :=
+  session N unit bool (fun _ _ => tt) tt
+          (fun o => match o with Some t => N.odd t | None => false end) false [] fs.
